@@ -24,7 +24,7 @@ import (
 
 func init() { verbs["C19"] = runC19 }
 
-var raceOps = []string{"verify", "authorize", "query", "string", "getblockid", "createblock", "append", "seal", "serialize", "revids", "parse", "code", "authorize-parsed"}
+var raceOps = []string{"verify", "authorize", "query", "string", "getblockid", "createblock", "append", "seal", "serialize", "revids", "parse", "code", "authorize-parsed", "regex"}
 
 type raceShared struct {
 	tok     *biscuit.Biscuit
@@ -64,6 +64,27 @@ func raceOp(sh *raceShared, op string, k int) (res string) {
 		}
 		az.AddPolicy(sh.policy)
 		return authErrClass(az.Authorize())
+	case "regex":
+		// each request has its own pattern, written into its own authorizer at the same position
+		// (so the same symbol index in every goroutine's table); whether it matches depends on k.
+		// The reference for this op is Go's regexp applied directly (raceRegexWant), not the library.
+		az, err := sh.tok.AuthorizerFor(biscuit.WithSingularRootPublicKey(pub), biscuitOpts(AuthCase{MaxFacts: 1000, MaxIter: 100}))
+		if err != nil {
+			return rejectClass(err)
+		}
+		az.AddFact(biscuit.Fact{Predicate: biscuit.Predicate{Name: "probe_res", IDs: []biscuit.Term{biscuit.String(fmt.Sprintf("file%d", k%3))}}})
+		rl, err := sh.p.Rule(fmt.Sprintf(`probe_hit($r) <- probe_res($r), $r.matches("%s")`, racePattern(k)), nil)
+		if err != nil {
+			return "parse-error"
+		}
+		fs, err := az.Query(rl)
+		if err != nil {
+			return "qerr"
+		}
+		if len(fs) > 0 {
+			return "match"
+		}
+		return "nomatch"
 	case "authorize-parsed":
 		// the shared parsed authorizer and block go in first, then this request's own policy,
 		// which decides: each goroutine must get the answer of ITS policy
@@ -219,6 +240,18 @@ func raceShare(r *Rng) (*raceShared, error) {
 	return &raceShared{tok: tok, check: ck, policy: pol, rule: rl, p: p, setFact: sf, pa: pa, pb: pblk}, nil
 }
 
+// racePattern: digits up to k%4 only, so "file<k%3>" matches for some k and not for others.
+func racePattern(k int) string {
+	return fmt.Sprintf(`^fil[a-z][0-%d]+(x%d)?$`, k%4, raceEpoch)
+}
+
+func raceRegexWant(k int) string {
+	if regexp.MustCompile(racePattern(k)).MatchString(fmt.Sprintf("file%d", k%3)) {
+		return "match"
+	}
+	return "nomatch"
+}
+
 var raceEpoch int // mix number: patterns differ from mix to mix, so each mix meets some for the first time
 
 // raceWorkMain: child process. Prints "MIX <i> <goroutine> <op> <k> <result> <sequential>" lines.
@@ -280,7 +313,11 @@ func raceWorkMain(args []string) {
 		for _, pl := range plans {
 			for _, j := range pl {
 				if _, ok := ref[j]; !ok {
-					ref[j] = raceOp(shRef, j.op, j.k)
+					if j.op == "regex" {
+						ref[j] = raceRegexWant(j.k) // independent of the library: a process-wide table filled under concurrency would mislead a library reference too
+					} else {
+						ref[j] = raceOp(shRef, j.op, j.k)
+					}
 				}
 			}
 		}
@@ -310,7 +347,7 @@ func libraryRoot() string {
 var raceFrameRe = regexp.MustCompile(`(?m)^\s+(\S*` + regexp.QuoteMeta(libraryRoot()) + `[^\s:]+\.go:\d+)`)
 
 func runC19(c *Ctx) {
-	c.Rule = "the harness is rebuilt with -race and re-executed as a child with GORACE=log_path: per mix one shared token (unmarshalled, so byte slices are protobuf-allocated; symbol table of 3/5-7/9-15 symbols and 2-8 blocks so that clones and block lists have spare capacity), shared parsed check / policy / rule values and one shared parser.New(); G goroutines (8 quick / 16 thorough) each run a random sequence of {AuthorizerFor, Authorize on an own authorizer, Query, String, Code, GetBlockID with new symbols, CreateBlock+Add+Build+Append, Append, Seal, Serialize, RevocationIds, parser.Check on the shared parser} with GOMAXPROCS in 2..16. Violations: any data-race report whose stack touches /repo (file:line pairs recorded), or any goroutine result differing from the sequential result of the same operation. Non-trivial = every mix (distinct seeds, operation sequences and GOMAXPROCS); distinct = distinct mixes."
+	c.Rule = "the harness is rebuilt with -race and re-executed as a child with GORACE=log_path: per mix one shared token (unmarshalled, so byte slices are protobuf-allocated; symbol table of 3/5-7/9-15 symbols and 2-8 blocks so that clones and block lists have spare capacity), shared parsed check / policy / rule values and one shared parser.New(); G goroutines (8 quick / 16 thorough) each run a random sequence of {AuthorizerFor, Authorize on an own authorizer, Query, a Query whose rule holds a per-request regular expression (reference: Go's regexp applied directly), String, Code, GetBlockID with new symbols, CreateBlock+Add+Build+Append, Append, Seal, Serialize, RevocationIds, parser.Check on the shared parser} with GOMAXPROCS in 2..16. Violations: any data-race report whose stack touches /repo (file:line pairs recorded), or any goroutine result differing from the sequential result of the same operation. Non-trivial = every mix (distinct seeds, operation sequences and GOMAXPROCS); distinct = distinct mixes."
 	mixes, gor, ops := 12, 8, 40
 	if c.Thorough {
 		mixes, gor, ops = 120, 16, 120
